@@ -210,6 +210,13 @@ impl Dispatch {
         })
     }
 }
+impl Dispatch {
+    /// lines of the fixed list that send a built-in command with arguments it refuses
+    fn refused_builtin(line: &str) -> bool {
+        let h = line.split(' ').nth(1).unwrap_or("");
+        unhex(h.trim_start_matches('!')).map_or(false, |d| [&b"shutdown "[..], b"wait ", b"clear ", b"reload "].iter().any(|p| d.starts_with(p)))
+    }
+}
 impl Group for Dispatch {
     // a real server / real sockets with read timeouts: a failure counts if it shows again when the same case is re-run
     fn timing_sensitive(&self) -> bool {
@@ -245,6 +252,16 @@ impl Group for Dispatch {
             "c19.dispatch !70696e6720c3".to_owned(),
             "c19.dispatch !70696e67202261222020f09f98".to_owned(),
             "c19.dispatch !70696e67e2".to_owned(),
+            // built-in commands with arguments they refuse: an `error …` reply and nothing else happens — the pings behind
+            // them are answered by the same instance
+            format!("c19.dispatch {}", hex(b"shutdown no-wait now")),
+            format!("c19.dispatch {}", hex(b"ping after-refused-shutdown")),
+            format!("c19.dispatch {}", hex(b"shutdown now")),
+            format!("c19.dispatch {}", hex(b"shutdown no-wait no-wait")),
+            format!("c19.dispatch {}", hex(b"wait for it")),
+            format!("c19.dispatch {}", hex(b"clear nothing at all")),
+            format!("c19.dispatch {}", hex(b"reload now please")),
+            format!("c19.dispatch {}", hex(b"ping still-here")),
         ];
         // long requests with multi-byte characters at every alignment: unknown commands and pings of 40-200 bytes
         for shift in 0..5 {
@@ -305,9 +322,8 @@ impl Group for Dispatch {
         self.send(data)
     }
     fn compare_with_model(&self, line: &str) -> bool {
-        // the model's plugin table holds `ping` only; other built-in commands are excluded from generation.
-        let _ = line;
-        true
+        // the model's plugin table holds `ping` only; the refused built-in commands are judged by the oracle alone
+        !Self::refused_builtin(line)
     }
     fn canon(&self, out: &str) -> String {
         out.to_owned()
@@ -326,6 +342,12 @@ impl Group for Dispatch {
             return None;
         }
         let s = String::from_utf8(data).unwrap();
+        if Self::refused_builtin(line) {
+            if !reply.starts_with(b"error") {
+                return Some((format!("refused:{h}"), format!("`{s}` carries arguments the command refuses, but was answered {:?}", String::from_utf8_lossy(&reply))));
+            }
+            return None;
+        }
         // independent reference: a well-formed `ping "a" "b"` request echoes its arguments
         if let Some(rest) = s.strip_prefix("ping ") {
             // only judge requests built by the encoder (arguments all quoted by encode_quoted_str)
